@@ -522,6 +522,68 @@ def load_post(v, n0, n1, idx):
             ('the node set of the net is unchanged', fa_key(lambda k: n1.node(k) == n0.node(k)))]
 
 
+# ---------------------------------------------------------------- stubs of `self` / of a pool that follow the class in the tree
+_members_cache = {}
+
+
+def tree_class(vc, path, clsname):
+    """fresh parse of a class of the tree under analysis: {member name: 'static' | 'class' | 'property' | 'method'}"""
+    import ast
+    import os
+    from pyvc import instrument
+    full = os.path.join(getattr(vc, 'repo', None) or os.environ.get('PYVC_REPO') or instrument.REPO, path)
+    st = os.stat(full)
+    key = (full, st.st_mtime_ns, st.st_size, clsname)
+    if key not in _members_cache:
+        out = {}
+        for n in ast.parse(open(full).read()).body:
+            if isinstance(n, ast.ClassDef) and n.name == clsname:
+                for f in n.body:
+                    if isinstance(f, ast.FunctionDef):
+                        decos = {d.id if isinstance(d, ast.Name) else getattr(d, 'attr', '?') for d in f.decorator_list}
+                        out.setdefault(f.name, 'static' if 'staticmethod' in decos else 'class' if 'classmethod' in decos else 'property' if 'property' in decos else
+                                       'other' if decos else 'method')
+        _members_cache[key] = out
+    return _members_cache[key]
+
+
+def sibling_fallback(vc, path, clsname):
+    """__getattr__ of a stub object: a member the contract did not supply explicitly is the REAL member of the class in the tree, inlined
+    (so an analysed method may call sibling helper methods / static methods / properties of its class and stays in the subset)"""
+    import types
+    members = tree_class(vc, path, clsname)
+
+    def __getattr__(self_, name):
+        kind = members.get(name)
+        if kind is None or name.startswith('_vc_') or name.startswith('__'):
+            raise AttributeError(name)
+        if kind == 'other':
+            raise OutOfSubset('%s.%s has a decorator the engine does not model' % (clsname, name))
+        fn = inline(vc, '%s::%s.%s' % (path, clsname, name))
+        if kind == 'static':
+            return fn
+        if kind == 'class':
+            return types.MethodType(fn, type(self_))
+        if kind == 'property':
+            return fn(self_)
+        return types.MethodType(fn, self_)
+    return __getattr__
+
+
+def pool_methods(vc, s, extra=None):
+    """methods every OutputPool stub gets: python TRUTHINESS as the real class has it (no __bool__; __len__ defined => `not pool` is True
+    for a pool that holds no batch; len(pool) is the symbolic s.pool_len >= 0, see the contract of OutputPool.__len__) + the sibling fallback"""
+    members = tree_class(vc, 'elfi/store.py', 'OutputPool')
+    m = dict(__getattr__=sibling_fallback(vc, 'elfi/store.py', 'OutputPool'))
+    if '__bool__' in members:
+        raise OutOfSubset('OutputPool defines __bool__: truthiness of a pool is not modelled')
+    if '__len__' in members:
+        s.pool_len = vc.fresh_int('pool_len', nonneg=True)
+        m['__bool__'] = lambda self_: cur().branch(s.pool_len > 0)
+    m.update(extra or {})
+    return m
+
+
 # ---------------------------------------------------------------- ComputationContext.__init__ / callback, OutputPool.set_context
 class _Base(Contract):
     prop = 'C05'
@@ -554,8 +616,8 @@ class ContextInit(_Base):
                 return real_set(self_, context)
             s.pool = make_object('OutputPool', attrs=dict(batch_size=SInt(pb) if s.pool_kind == 'context' else None,
                                                           seed=SInt(ps) if s.pool_kind in ('context', 'half-context') else None, name='pool'),
-                                 methods=dict(set_context=set_context), properties=dict(has_context=inline(vc, 'elfi/store.py::OutputPool.has_context')))
-        s.self = make_object('ComputationContext', properties=dict(batch_size=inline(vc, 'elfi/model/elfi_model.py::ComputationContext.batch_size'),
+                                 methods=pool_methods(vc, s, dict(set_context=set_context)), properties=dict(has_context=inline(vc, 'elfi/store.py::OutputPool.has_context')))
+        s.self = make_object('ComputationContext', methods=dict(__getattr__=sibling_fallback(vc, 'elfi/model/elfi_model.py', 'ComputationContext')), properties=dict(batch_size=inline(vc, 'elfi/model/elfi_model.py::ComputationContext.batch_size'),
                                                                    seed=inline(vc, 'elfi/model/elfi_model.py::ComputationContext.seed'),
                                                                    pool=inline(vc, 'elfi/model/elfi_model.py::ComputationContext.pool')))
         s.rseed = z3.Int('random_seed')
@@ -605,7 +667,7 @@ class SetContext(_Base):
         s.has_s = vc.fork_values('pool_seed', [True, False])
         s.named = vc.fork_values('name', [True, False])
         s.self = make_object('OutputPool', attrs=dict(batch_size=SInt(pb) if s.has_b else None, seed=SInt(ps) if s.has_s else None, name='given' if s.named else None),
-                             properties=dict(has_context=inline(vc, 'elfi/store.py::OutputPool.has_context')))
+                             methods=pool_methods(vc, s), properties=dict(has_context=inline(vc, 'elfi/store.py::OutputPool.has_context')))
         ctx = make_object('ComputationContext', attrs=dict(batch_size=SInt(b), seed=SInt(sd)))
         return s, (s.self, ctx), {}
 
@@ -627,8 +689,8 @@ class Callback(_Base):
     def setup(self, vc):
         s = NS(calls=[], batch=object(), idx=SInt(z3.Int('batch_index')))
         s.with_pool = vc.fork_values('pool', [True, False])
-        pool = make_object('OutputPool', methods=dict(add_batch=lambda self_, *a, **kw: s.calls.append((a, kw)))) if s.with_pool else None
-        s.self = make_object('ComputationContext', attrs=dict(_pool=pool))
+        pool = make_object('OutputPool', methods=pool_methods(vc, s, dict(add_batch=lambda self_, *a, **kw: s.calls.append((a, kw))))) if s.with_pool else None
+        s.self = make_object('ComputationContext', attrs=dict(_pool=pool), methods=dict(__getattr__=sibling_fallback(vc, 'elfi/model/elfi_model.py', 'ComputationContext')))
         return s, (s.self, s.batch, s.idx), {}
 
     def ensures(self, s, result):
@@ -651,6 +713,7 @@ class _PoolContract(_Base):
         methods = dict(_get_store_for=inline(vc, 'elfi/store.py::OutputPool._get_store_for'),
                        _make_store_for=inline(vc, 'elfi/store.py::OutputPool._make_store_for'))
         methods.update(extra_methods or {})
+        methods = pool_methods(vc, s, methods)
         s.self = make_object('OutputPool', attrs=dict(stores=s.stores), methods=methods,
                              properties=dict(output_names=inline(vc, 'elfi/store.py::OutputPool.output_names')))
         return s.self
@@ -926,7 +989,7 @@ class PoolLoad(_PoolContract):
                 for n, f in get_batch_post(s.view, b.has, b.val, T(batch_index)):
                     vc.assume(f)
                 return b
-            pool = make_object('OutputPool', attrs=dict(stores=StoresProxy(s.view)), methods=dict(get_batch=Stub('OutputPool.get_batch', lambda vc_, *a, **k: get_batch(None, *a, **k), 'GetBatch')))
+            pool = make_object('OutputPool', attrs=dict(stores=StoresProxy(s.view)), methods=pool_methods(vc, s, dict(get_batch=Stub('OutputPool.get_batch', lambda vc_, *a, **k: get_batch(None, *a, **k), 'GetBatch'))))
         s.ctx = make_object('ComputationContext', attrs=dict(pool=pool))
         return s, (object(), s.ctx, s.net, SInt(s.idx)), {}
 
